@@ -135,7 +135,8 @@ def run(ctx):
     ctx.coverage['two_profiler_scenarios'] = tp
     for name, res in tp['scenarios'].items():
         if res != 'ok':
-            ctx.fail('one profiler being active made code decorated by another profiler fail',
+            ctx.fail('a decorated callable does not give the same result / exception for some keyword argument' if name.startswith('keyword') else
+                     'one profiler being active made code decorated by another profiler fail',
                      {'finding_class': tp['classes'].get(name), 'scenario': name, 'result': res})
     ctx.coverage.update({
         'evaluations': len(gens) + len(towers) + len(tp['scenarios']), 'distinct_nontrivial': len(nontrivial),
